@@ -12,8 +12,14 @@ _POOL = None
 
 
 def _replay_chunk(args):
+    """One interpreter replays its histories one after the other (earlier histories are "unrelated compilations"): ONE trace, each
+    event tagged with the history it belongs to, object-set ids made unique per history."""
     hists, specs = args
-    return [sessionpipe.replay(h, specs) for h in hists]        # sequentially in one process: earlier histories are "unrelated compilations"
+    out = []
+    for i, h in enumerate(hists):
+        for e in sessionpipe.replay(h, specs):
+            out.append(dict(e, objs="h%d_%s" % (i, e["objs"]), h=i))
+    return out
 
 
 def run(tier, rep):
@@ -33,27 +39,34 @@ def run(tier, rep):
         else:
             rng.shuffle(hists)
             core = [h for h in hists if len({a["spec"] for a in h}) == 1]          # same specification compiled twice (reuse / fresh)
+            tw = {frozenset(t) for t in sessionpipe.TWINS}
+            core += [h for h in hists if frozenset(a["spec"] for a in h) in tw and len(h) == 4 and [a["act"] for a in h] == ["parse", "compile"] * 2]
             hists = core + [h for h in hists if h not in core][:160 - len(core)]
         nproc = max(2, ncores() - 2)
         chunks = [hists[i::nproc] for i in range(nproc)]
         with ProcessPoolExecutor(nproc) as ex:
             res = list(ex.map(_replay_chunk, [(c, specs) for c in chunks]))
-        traces, src = [], []
-        for c, r in zip(chunks, res):
-            traces += r
-            src += c
-        rejected, accepted = sessionpipe.validate(traces, wd, rep, "replay")
+        refs = sessionpipe.fresh_refs(specs)
+        traces = [refs + r for r in res if r]
+        chunks = [c for c, r in zip(chunks, res) if r]
+        src = [h for c in chunks for h in c]
+        rejected, accepted = sessionpipe.validate(traces, wd, rep, "replay", every=True)
         if len(accepted) + len(rejected) != len(traces):
             raise MachineryError("trace validation lost traces")
-    rep.cov["traces_validated_against_impl"] = len(traces)
+    rep.cov["traces_validated_against_impl"] = len(src)
+    rep.cov["interpreters"] = len(traces)
     rep.cov["evaluations"] = sum(1 for t in traces for e in t if e["act"] == "compile")
     rep.cov["distinct_nontrivial"] = len({str(h) for h in src})
     rep.cov["histories_exhaustive_len4"] = exhaustive
     rep.cov["pool"] = names
-    rep.cov["rule"] = "histories = Session.tla behaviours ending in a compile with >= 2 compiles; pool of 8 specifications (plain, spacetime, sigma, extensor, gamma, outerspace, 2 generated buffet architectures)"
-    for tid, (l, why) in sorted(rejected.items()):
-        ev = traces[tid - 1][l - 1]
-        rep.violation(dict(kind="session", clause=why, history=src[tid - 1], event=ev, spec=specs[ev["spec"]], text="", family="session", specname=ev["spec"]))
-    for t, h in list(zip(traces, src))[:2]:
-        rep.sample({"history": h, "recorded": t})
+    rep.cov["rule"] = "histories = Session.tla behaviours ending in a compile with >= 2 compiles; pool of 11 specifications (plain, spacetime, sigma, extensor, gamma, outerspace, 2 generated buffet architectures, twins: same tensor names and access texts declared differently); each interpreter's whole event sequence is one trace, started by reference events from fresh interpreters"
+    for tid, evs in sorted(rejected.items()):
+        for l, why in evs:
+            ev = traces[tid - 1][l - 1]
+            before = [e["spec"] for e in traces[tid - 1][len(refs):l - 1] if e["act"] == "compile"]
+            rep.violation(dict(kind="session", clause=why, history=chunks[tid - 1][ev["h"]], event=ev, spec=specs[ev["spec"]], text="", family="session",
+                               specname=ev["spec"], compiled_earlier_in_this_interpreter=before[-12:],
+                               reference="the result of a fresh interpreter that parses and compiles only this specification"))
+    if traces:
+        rep.sample({"history": chunks[0][0], "recorded": [e for e in traces[0][len(refs):] if e["h"] == 0], "reference_events": refs[:2]})
     rep.assumptions += ["'observably equal' = equal deep structural rendering of the objects' attribute dictionaries (lark trees, dicts, lists)"]
